@@ -63,7 +63,7 @@ func c15RaceAux(tier string, args []string) int {
 			defer wg.Done()
 			for k := 0; k < iters; k++ {
 				_, b := s.body(c.i, tier)
-				if got := b(); got != want {
+				if got := b(); !c15SameAs(&s, got, want) {
 					select {
 					case bad <- got:
 					default:
@@ -104,9 +104,9 @@ func c15Supplement(c *engine.SuppCtx) *engine.SuppResult {
 	k := 0
 	for _, s := range c15Scenarios {
 		for i := 0; i < s.cases(c.Tier); i++ {
-			// quick: every 6th consumer sequence of S1 (they differ in the consumer's
+			// quick: every 6th consumer sequence of S1 and S11 (they differ in the consumer's
 			// calls, not in the goroutines involved); thorough: all of them
-			if c.Tier == "thorough" || s.name != "S1-asyncPages" || i%6 == 0 {
+			if c.Tier == "thorough" || (s.name != "S1-asyncPages" && s.name != "S11-asyncPagesCorruptedPage") || i%6 == 0 {
 				all = append(all, sc{s.name, i})
 				idxs = append(idxs, k)
 			}
